@@ -55,7 +55,7 @@ def fuel : Nat := 20000
 /-- the runs taken since the log had length `n0`, oldest first -/
 def runsSince (n0 : Nat) (s : State) : List Run :=
   ((s.log.take (s.log.length - n0)).reverse).filterMap fun
-    | .took _ r => some r
+    | .took _ r _ => some r
     | _ => none
 
 def insertRun (r : Run) : List Run → List Run
